@@ -9,6 +9,8 @@ import dns.exception
 import dns.name
 import dns.node
 import dns.rdata
+import dns.rdataclass
+import dns.rdataset
 import dns.rdatatype
 import dns.versioned
 import dns.zone
@@ -184,7 +186,19 @@ def check_styles(ctx, rng, mz, nstyles):
     relativize = rng.random() < 0.5
     tag = f"{zname}:{'rel' if relativize else 'abs'}"
     z = GZ.build_lib_zone(mz, relativize, zone_factory=factory, comment_rng=rng if rng.random() < 0.6 else None)
+    has_empty_set = False
+    if zname == "plain" and rng.random() < 0.15:
+        # a node whose FIRST record set is empty (left behind by find_rdataset(create=True) or clear()): it prints nothing, and
+        # the owner name belongs on the first set that does print
+        cands = [node for node in z.nodes.values() if len(node.rdatasets) >= 1 and all(int(r.rdtype) not in (99, 5) and int(r.covers) != 5 for r in node.rdatasets)]
+        if cands:
+            node = rng.choice(cands)
+            node.rdatasets.insert(0, dns.rdataset.Rdataset(dns.rdataclass.IN, 99))
+            has_empty_set = True
+            ctx.count("mon.zones_with_an_empty_first_record_set")
     want = GZ.content_of_lib_zone(z)
+    if has_empty_set:
+        want = {k: {kk: v for kk, v in d.items() if v[1]} for k, d in want.items()}
     want_comments = GZ.comments_of_lib_zone(z)
     ttls = sorted({v[0] for d in want.values() for v in d.values()})
     base_case = {"kind": "style", "zone": zname, "relativize": relativize, "zone_text": GZ.mz_to_text(mz)[:3000]}
@@ -231,7 +245,8 @@ def check_styles(ctx, rng, mz, nstyles):
             cause = "default_ttl" if style.default_ttl is not None else "dedup" if style.deduplicate_names else "want_generic" if style.want_generic else "origin-mode-" + origin_mode
             ctx.violation(f"zone-differs-after-write-read:{cause}", f"{tag}: {diffc(got, want)}\n--- text ---\n{text[:1200]}", case)
             continue
-        if not (z2 == z):
+        if not (z2 == z) and not has_empty_set:
+            # (an empty record set counts for Node.__eq__ but has no text: such zones are compared by content only)
             ctx.violation("zone-equality-fails-after-write-read", tag, case)
         if style.want_comments:
             # comments are part of what this style writes: each record comes back with its own, the others with none
@@ -391,6 +406,11 @@ def spell_zone(rng, mz, kind):
             if not omit_ttl:
                 mid.append(ttl_text)
         rt = rdata_text(rd)
+        if kind in ("origin-switch", "generic-mnemonics") and rng.random() < 0.35:
+            # the RFC 3597 spelling of the same rdata (octets of the uncompressed wire form): names inside a known type are
+            # then relativized like the text spelling's would have been -- to the ZONE origin, whatever $ORIGIN is in force
+            gw = rd.to_wire()
+            rt = f"\\# {len(gw)} {gw.hex()}" if gw else "\\# 0"
         if kind == "parenthesised" and tt in ("SOA", "MX", "SRV", "A", "AAAA", "NS", "DS") and '"' not in rt:
             toks = rt.split(" ")
             rt = "(\n\t" + "\n\t".join(toks) + " ; note\n\t)"
